@@ -68,7 +68,8 @@ def raw_cost(spec, x):
     if fam == 'vec':          # array-valued, for reducers
         if spec.get('single'):    # one signed residual (a fit to a single data point)
             return [float(np.sum(w * (x - a))) + float(spec.get('c', 0.25))]
-        return [float(v) for v in (w * (x - a) ** 2)] + [float(spec.get('c', 0.25))]
+        off = float(spec.get('off', 0.0))    # off > 0: signed margins, all negative near the optimum
+        return [float(v) - off for v in (w * (x - a) ** 2)] + [float(spec.get('c', 0.25))]
     raise ValueError(fam)
 
 
@@ -146,6 +147,8 @@ def cost_specs(draw, dim, families=('quad', 'rosen', 'abs', 'cos', 'plateau', 'i
     if fam == 'vec':
         spec['c'] = draw(st.sampled_from([0.0, 0.25, 1.0]))
         spec['ret'] = 'array'
+        if draw(st.integers(0, 2)) == 0:
+            spec['off'] = draw(st.sampled_from([0.5, 2.0, 100.0])); spec['c'] = draw(st.sampled_from([-1.0, -0.25, 0.25]))
         if draw(st.integers(0, 3)) == 0:
             spec['single'] = True
     return spec
@@ -168,6 +171,8 @@ def reducer_fn(spec):
         return (lambda x, y: x + y), False
     if kind == 'max2':
         return (lambda x, y: x if x > y else y), False
+    if kind == 'min2':
+        return (lambda x, y: x if x < y else y), False
     raise ValueError(kind)
 
 
@@ -185,6 +190,8 @@ def reduce_value(spec, v):
         return r
     if k in ('max', 'max2'):
         return float(max(v))
+    if k == 'min2':
+        return float(min(v))
     if k == 'mean':
         return float(np.mean(np.array(v, float)))
     if k == 'sumsq':
@@ -244,6 +251,9 @@ class Constraint(object):
             for i, u in enumerate(new):
                 x[i] = u
             return x
+        if self.ret == 'pyint':
+            # what user code with integer literals returns: integral entries come back as python ints
+            return [int(u) if (math.isfinite(u) and float(u).is_integer() and abs(u) < 2.0 ** 53) else u for u in new]
         if self.ret == 'list' or (self.ret == 'same' and not isarr):
             return list(new)
         return np.array(new, dtype=float)
@@ -299,7 +309,7 @@ def constraint_specs(draw, dim, box=None, symbolic=True):
     if not math.isfinite(lo): lo = -3.0 if not math.isfinite(hi) else hi - 6.0
     if not math.isfinite(hi): hi = lo + 6.0
     frac = lambda: draw(st.sampled_from([0.0, 0.25, 0.5, 0.75, 1.0, 0.3]))
-    spec = dict(kind=kind, inplace=draw(st.booleans()), ret=draw(st.sampled_from(['same', 'list', 'array'])))
+    spec = dict(kind=kind, inplace=draw(st.booleans()), ret=draw(st.sampled_from(['same', 'list', 'array', 'same', 'pyint'])))
     if kind == 'pin':
         spec.update(i=i, c=lo + frac() * (hi - lo))
     elif kind == 'clamp':
